@@ -188,6 +188,33 @@ Next ==
   \/ Truncate("parser", AnyMod)
 
 Spec == Init /\ [][Next]_vars
+
+\* ---- random walks: one pseudo-randomly chosen enabled operation per state (TLC evaluates RandomElement once per
+\* expansion, so breadth-first search produces one successor per state: a long behaviour whose every edge is emitted).
+\* Used to drive the real code along behaviours far longer than exhaustive search reaches.
+Descs ==
+  {[name |-> "edit", m |-> m, v |-> v, t |-> t] : m \in Mods, v \in Variants, t \in 1..(IF MaxT = 0 THEN MaxOps + 1 ELSE MaxT)}
+  \cup {[name |-> "run", enabled |-> e, force |-> f] : e \in (IF WithCache THEN BOOLEAN ELSE {FALSE}), f \in BOOLEAN}
+  \cup {[name |-> "clear"]}
+  \cup {[name |-> "truncate", kind |-> k, m |-> m] : k \in {"ast", "sym"}, m \in Mods}
+  \cup {[name |-> "truncate", kind |-> "parser", m |-> AnyMod]}
+  \cup {[name |-> "delete", m |-> m] : m \in Mods}
+Guard(d) ==
+  CASE d.name = "edit" -> d.v # src[d.m] /\ (IF MaxT = 0 THEN d.t = mtime[d.m] + 1 ELSE d.t # mtime[d.m])
+    [] d.name = "run" -> WithOutputs \/ d.force
+    [] d.name = "clear" -> WithCache
+    [] d.name = "truncate" -> WithCache /\ ntorn < MaxTorn /\
+         (CASE d.kind = "ast" -> ast[d.m] # None /\ ~ast[d.m].torn [] d.kind = "sym" -> sym[d.m] # None /\ ~sym[d.m].torn [] OTHER -> parser = "ok")
+    [] d.name = "delete" -> WithOutputs /\ out[d.m] # None
+Do(d) ==
+  CASE d.name = "edit" -> Edit(d.m, d.v, d.t)
+    [] d.name = "run" -> Run(d.enabled, d.force)
+    [] d.name = "clear" -> ClearCache
+    [] d.name = "truncate" -> Truncate(d.kind, d.m)
+    [] d.name = "delete" -> DeleteOutput(d.m)
+\* runs are twice as likely as any other operation (they are where the properties are observed)
+Weighted == {<<d, i>> : d \in {x \in Descs : Guard(x)}, i \in 1..2} \ {<<d, 2>> : d \in {x \in Descs : x.name # "run"}}
+RandomNext == Weighted # {} /\ Do(RandomElement(Weighted)[1])
 Bounded == TLCGet("level") <= MaxOps
 
 -----------------------------------------------------------------------------
